@@ -100,6 +100,7 @@ type Exec struct {
 	mapLenKeys     map[string]bool
 	callpreUsed    map[string]bool
 	inFuncDispatch bool
+	givenVals      map[string]*Term
 	funcVals       []VFunc // function values (closures) that were stored in memory, by identity funcIDBase+index
 	curAlloc       *Term
 	slotAxiom      bool
@@ -178,6 +179,7 @@ func (x *Exec) funcID(v VFunc) *Term {
 
 func (x *Exec) reset() {
 	x.funcVals = nil
+	x.givenVals = nil
 	x.Sh.FuncID = x.funcID
 	x.assumes = nil
 	x.obligs = nil
@@ -975,6 +977,20 @@ func (x *Exec) frameEnv(fr *Frame, st *State) *SpecEnv {
 		env.Pkg = fr.fn.Parent().Pkg
 	}
 	spec := fr.spec
+	// `given` parameters of the unit's own contract: arbitrary fixed integers
+	if spec != nil && spec == x.Spec {
+		for _, g := range spec.Given {
+			if x.givenVals == nil {
+				x.givenVals = map[string]*Term{}
+			}
+			t, ok := x.givenVals[g]
+			if !ok {
+				t = x.C.Const("given!"+g, SInt)
+				x.givenVals[g] = t
+			}
+			env.Vars[g] = SV{V: VInt{t}, T: types.Typ[types.Int]}
+		}
+	}
 	// parameters by contract position (contract names) and by source name
 	for i, p := range fr.fn.Params {
 		sv := SV{V: fr.env[p], T: p.Type()}
